@@ -339,7 +339,7 @@ impl Property for C08 {
     fn budget(&self, tier: Tier) -> (u32, usize) {
         match tier {
             Tier::Quick => (20_000, 8),
-            Tier::Thorough => (500_000, 16),
+            Tier::Thorough => (1_000_000, 16),
         }
     }
     fn run(&self, case: &BudgetCase) -> Report {
